@@ -462,7 +462,17 @@ class Interp:
                     base = ks[0]
                     for k in ks:
                         print('     head key diff:', [x for x in k if x not in base][:12])
-            if not uncovered and os.environ.get('ABSINT_HEADS'):
+            if not uncovered and os.environ.get('ABSINT_HEADS') and os.environ['ABSINT_HEADS'] not in ('1', fn.name):
+                pass
+            elif not uncovered and os.environ.get('ABSINT_HEADS') == fn.name:
+                for h in heads[:8]:
+                    print('   [head] %s:%s last=%r' % (fn.name, head, h.pathlist()[-1:]))
+                    for n_, v_ in sorted(h.top.env.items()):
+                        if isinstance(v_, (Int, Ptr)) and (not isinstance(v_, Int) or v_.a.t):
+                            print('        %%%s = %r %s' % (n_, v_, h.store.bounds(v_.a) if isinstance(v_, Int) else ''))
+                    for e in h.store.rel[-40:]:
+                        print('        rel %r >= 0' % e)
+            elif not uncovered and os.environ.get('ABSINT_HEADS'):
                 for h in heads:
                     print('   [head] %s:%s path=%r' % (fn.name, head, h.pathlist()[-1:]))
                     for rn in ('P',):
@@ -534,6 +544,26 @@ class Interp:
             fi[key] = r
         return r
 
+    def loop_callargs(self, fn, lp):
+        """SSA integers defined outside the loop that are passed directly to a call inside it (they select the
+        effect of the call, e.g. the size argument of snprintf): partitioned by zero / non-zero"""
+        key = ('callargs', lp['head'])
+        fi = self.fninfo[fn.name]
+        if key in fi:
+            return fi[key]
+        inside = set()
+        for bn in lp['body']:
+            inside.update(fi['defs_in'][bn])
+        out = set()
+        for bn in lp['body']:
+            for ins in fn.blocks[bn].instrs:
+                if ins.op == 'call':
+                    for (t, v) in ins.ops:
+                        if v[0] == 'local' and t[0] == 'int' and v[1] not in inside:
+                            out.add(v[1])
+        fi[key] = out
+        return out
+
     def flag_phis(self, fn, lp):
         """phis of the loop head that are flag-like (partitioned by constant value); induction variables
         (phi fed back through add/sub of itself) are merged and widened instead"""
@@ -584,6 +614,7 @@ class Interp:
         S = st.store
         names = sorted(self.live_names(fn, lp)) if lp is not None else sorted(env)
         phis = self.flag_phis(fn, lp) if lp is not None else set()
+        callargs = self.loop_callargs(fn, lp) if lp is not None else ()
         for n in names:
             v = env.get(n)
             if v is None:
@@ -592,6 +623,9 @@ class Interp:
                 if n in phis:
                     c = S.const_of(v.a)
                     key.append((n, c if c is not None else 'S'))
+                elif n in callargs:
+                    lo, hi = S.bounds(v.a)
+                    key.append((n, 0 if hi == 0 else ('+' if lo > 0 else '?')))
             elif isinstance(v, Ptr):
                 key.append((n, v.region))
             else:
@@ -931,6 +965,31 @@ class Interp:
                 for v in variants:
                     if all((x in common or x in hset) for x in v.t):
                         add(v)
+        # (i-b) place values with several symbols: a constraint of the form k*value + rest(common) is
+        #       rewritten to k*head + rest
+        for i, s in enumerate(states):
+            if houdini and i > 0:
+                break
+            multi = []
+            for hs in hsyms:
+                a = sig[i][hs]
+                if len(a.t) >= 2:
+                    nc = [z for z in a.t if z not in common]
+                    pivot = nc[0] if nc else None
+                    if pivot is None:
+                        continue
+                    multi.append((hs, a, pivot))
+            if not multi:
+                continue
+            for e in s.store.rel:
+                for (hs, a, pivot) in multi:
+                    kz = e.t.get(pivot)
+                    if kz is None or kz % a.t[pivot]:
+                        continue
+                    k = kz // a.t[pivot]
+                    rest = e.sub(a.mul(k))
+                    if all((x in common or x in hset) for x in rest.t):
+                        add(rest.add(Aff.sym(hs, k)))
         newset = hset
         if houdini:
             # later widening rounds only filter what the previous head already carried (termination);
